@@ -1,12 +1,19 @@
 (* Driver.v - the single entry point the extracted correspondence driver calls. *)
-From RenetV Require Import Base Tree RDriver.
+From RenetV Require Import Base Tree RDriver NDriver.
 Open Scope N_scope.
 
-Record world := { w_renet : rworld }.
-Definition world0 : world := {| w_renet := rworld0 |}.
+Record world := { w_renet : rworld; w_netcode : nworld }.
+Definition world0 : world := {| w_renet := rworld0; w_netcode := nworld0 |}.
 
+(* opcodes below 100 address the renet world, the others the renetcode world *)
 Definition step (w : world) (op : tree) : world * tree :=
-  let (r, o) := rstep (w_renet w) op in ({| w_renet := r |}, o).
+  match op with
+  | TL (TN code :: _) =>
+      if code <? 100
+      then let (r, o) := rstep (w_renet w) op in ({| w_renet := r; w_netcode := w_netcode w |}, o)
+      else let (n, o) := nstep (w_netcode w) op in ({| w_renet := w_renet w; w_netcode := n |}, o)
+  | _ => (w, T_BAD_OP)
+  end.
 
 Fixpoint run (w : world) (ops : list tree) : list tree :=
   match ops with
